@@ -177,10 +177,20 @@ def touches_storage(pdb, n):
 
 
 class Guard:
-    __slots__ = ("alts", "node", "pre_touch", "index", "kind")
+    __slots__ = ("alts", "node", "pre_touch", "index", "kind", "after_return")
 
-    def __init__(self, alts, node, pre_touch, index, kind="panic"):
+    def __init__(self, alts, node, pre_touch, index, kind="panic", after_return=False):
         self.alts, self.node, self.pre_touch, self.index, self.kind = alts, node, pre_touch, index, kind
+        self.after_return = after_return      # an earlier top-level statement can return normally
+
+
+def _mentions_param(t, lo):
+    """does the term mention a parameter with index >= lo?"""
+    if isinstance(t, tuple):
+        if len(t) == 2 and t[0] == "param" and isinstance(t[1], int):
+            return t[1] >= lo
+        return any(_mentions_param(x, lo) for x in t)
+    return False
 
 
 def guard_alts(ctx, cond, subst=None):
@@ -209,6 +219,7 @@ def entry_guards(pdb, ctx, body=None):
     body = body if body is not None else ctx.fn["body"]
     out = []
     touched = False
+    returned = False
     stmts = list(body.get("stmts", []))
     if body.get("expr") is not None:
         stmts.append({"k": "Expr", "e": body["expr"]})
@@ -221,13 +232,27 @@ def entry_guards(pdb, ctx, body=None):
         se = strip(e)
         if s.get("k") in ("Expr", "Semi") and se.get("k") == "If" and diverges(se["then"]) and \
                 (se.get("else") is None or not diverges(se["else"])):
-            out.append(Guard(guard_alts(ctx, se["cond"]), se, touched, i, _guard_kind(se["then"])))
+            kind = _guard_kind(se["then"])
+            out.append(Guard(guard_alts(ctx, se["cond"]), se, touched, i, kind, returned))
             if touches_storage(pdb, se["cond"]):
                 touched = True
+            if kind == "return":
+                returned = True
             continue
         if touches_storage(pdb, e):
             touched = True
+        if any(x.get("k") == "Ret" for x in walk(e) if not _in_closure(x, e)):
+            returned = True
     return out
+
+
+def _in_closure(x, root):
+    for a in ancestors(x):
+        if a is root:
+            return False
+        if a.get("k") == "Closure":
+            return True
+    return False
 
 
 def _guard_kind(n):
@@ -283,12 +308,18 @@ def effective_guards(pdb, fn, depth=0):
     of the callee the function forwards to first (transitively), expressed in the fn's own param terms."""
     ctx = Ctx.for_fn(pdb, fn)
     out = {}
+    has_self = bool(fn.get("params")) and fn["params"][0].get("name") == "self"
     for g in entry_guards(pdb, ctx):
         if g.pre_touch or g.kind != "panic":
             continue
         for alt in g.alts:
             if len(alt) == 1:
                 (a,) = alt
+                if g.after_return and _mentions_param(a, 1 if has_self else 0):
+                    # the function can already have returned normally (an early `return` precedes this rejection): an
+                    # out-of-range ARGUMENT is then not rejected on that path ("never returns a value" needs the guard on
+                    # every returning path).  Guards on the receiver's own consistency are not affected.
+                    continue
                 out.setdefault(a, g.node)
     if depth < 4:
         c = first_touching_call(pdb, ctx)
@@ -1978,3 +2009,55 @@ def armed_bounds(rep, pdb, fn, key, extra_facts=(), usize_terms=(), eqmap=None, 
 def _nonneg_syntactic(t):
     c, atoms = lin_parts(t)
     return c >= 0 and all(k >= 0 for k in atoms.values())
+
+
+# ---------------------------------------------------------------- early returns must not skip required work
+
+def rule_no_skipping_return(rep, pdb, fn, key, domain=(), what="the sweep"):
+    """A procedure of a solver (elimination step, substitution sweep) may `return` early only on paths where everything it
+    skips is vacuous: every write that textually follows the `return` sits in a loop whose range is provably empty under the
+    facts known at the `return`, or the facts contradict the property's domain (e.g. rows >= 1).  Found by an independent
+    mutant that "protected" `rows - 1` in backsolve with `if self.rows < 2 { return; }`, which skips the division of the
+    1 x 1 system."""
+    from .guards import facts as _facts, for_range as _raw_range, prove_le as _ple, prove_lt as _plt
+    ctx = Ctx.for_fn(pdb, fn)
+    rule = ("an early `return` of %s skips only work that is vacuous on that path (loops with a provably empty range), unless the "
+            "path is outside the property's domain" % fn["path"])
+    rets = [n for n in walk(fn["body"]) if n.get("k") == "Ret" and not in_macro(n) and not any(a.get("k") == "Closure" for a in ancestors(n))]
+    effs = effects(pdb, ctx)
+    calls = [n for n in walk(fn["body"]) if n.get("k") in ("MethodCall", "Call") and not in_macro(n) and pdb.fn(callee_path(n) or "") is not None
+             and str(n.get("recv", {}).get("adj") or n.get("recv", {}).get("ty") or "").startswith("&mut")]
+    ok, dets, where = True, [], None
+    for r in rets:
+        fs = _facts(ctx, r)
+        if any(D[0] == "cmp" and D[1] == "<=" and _plt(D[3], D[2], fs) for D in domain):
+            dets.append("return at %s is outside the domain" % loc(r))
+            continue
+        rp = (r["sp"][0], r["sp"][1]) if r.get("sp") else (0, 0)
+        branch = [a for a in ancestors(r) if a.get("k") == "Block"]
+        skipped = []
+        for node, loops in [(e.node, e.loops) for e in effs] + [(c, enclosing_loops(c)) for c in calls]:
+            sp = node.get("sp")
+            if not sp or (sp[0], sp[1]) <= rp:
+                continue
+            if branch and any(a is branch[0] for a in ancestors(node)):
+                continue                     # same branch as the return: dead code after it
+            vac = False
+            for lp in loops:
+                lsp = lp.get("sp")
+                if lp.get("k") != "For" or not lsp or (lsp[0], lsp[1]) <= rp:
+                    continue
+                rg = _raw_range(ctx, lp)
+                if rg is not None and _ple(rg[2], rg[1], fs):
+                    vac = True
+                    break
+            if not vac:
+                skipped.append(node)
+        if skipped:
+            ok = False
+            where = where or r
+            dets.append("return at %s skips %d write(s)/call(s) that are not vacuous there, first at %s" % (loc(r), len(skipped), loc(skipped[0])))
+        else:
+            dets.append("return at %s skips only empty loops" % loc(r))
+    rep.add(key, rule, ok, where or fn["body"], "; ".join(dets) or "no early return", where=loc(where) if where is not None else loc(fn["body"]))
+    return ok
